@@ -26,23 +26,30 @@ What is proved.
   `C10_constructor_gap` (vectors that are accepted although they are not periodic knot vectors).
 * One lemma per operation family `C10_step_preserves_WF_<op>`; complete for clone, reverse, swap, reparam
   (both conventions), the affine family incl. set_dimension (≥ 1) / force_rational and the operator forms,
-  section, extrude; `_partial` — under the guard of the theorem of the property that owns the operation, stated
-  in the docstring, and WITHOUT assuming anything about the result — for insert_knot / refine (open directions,
-  periodic ones with `n ≥ p+k`: C04), raise_order and lower_order (clamped directions with C05's spacing; lower
-  only as left inverse of raise), split (open; periodic: C07), make_periodic (`order + continuity ≤ n`),
-  lower_periodic (C08), Curve.append (any orders), make_splines_identical (stage-wise guard, C12's model).
-  New facts proved for this: insertion matrices (open AND periodic, wrapping case included) are row-stochastic;
-  every column of the degree-elevation matrix sums to 1 (weights stay strictly positive under raise_order);
-  `BSplineBasis.make_periodic` of any valid open basis with enough functions is an exactly periodic valid basis.
+  section, extrude, refine (every direction, periodic ones of ANY size) and lower_periodic (every call that
+  completes); `_partial` — under the hypotheses stated in the docstring, and WITHOUT assuming anything about the
+  result — for insert_knot (only condition: values in `[start, end)` along NON-periodic directions; periodic
+  directions of any size need nothing), raise_order and lower_order (clamped directions with C05's spacing; lower
+  only as left inverse of raise), split (open; periodic of any size under C07's exact-tolerance hypotheses),
+  make_periodic (`order + continuity ≤ n`), Curve.append (any orders), make_splines_identical (stage-wise guard
+  consisting of the raise_order and open-direction insert_knot conditions only).
+  No theorem of this file carries a `n ≥ p + k` guard any more.
+  New facts proved for this: open insertion matrices are row-stochastic; periodic insertion matrices of EVERY valid
+  periodic basis (wrapping writes and the covering construction for `n < p + k` included) have entries ≥ 0 and row
+  sums ≥ 1 (`C10_periodic_insertion_matrix_positive`; = 1 unless the wrapped value is the domain end,
+  `C10_periodic_insertion_matrix_convex`; a row sum 2 at the domain end is exhibited), so weights stay strictly
+  positive; every column of the degree-elevation matrix sums to 1 (weights stay strictly positive under
+  raise_order); `BSplineBasis.make_periodic` of any valid open basis with enough functions is an exactly periodic
+  valid basis.
 * `C10_make_periodic_short_refuted`: `make_periodic` on a direction with fewer than `order + continuity`
   functions returns an object that is NOT well formed — in the model, and (correspondence run / oracle) in
   the real code.
 * `C10_reachable_partial`: induction over any finite history — the operation alphabet is the whole API of the
   property — whose calls satisfy their guards at the moment they are executed.
-* `C10_step_preserves_WF_checked_partial`: outside the guards (periodic directions below `n ≥ p+k`, knots of
-  multiplicity ≥ order under raise_order, general lower_order of rational objects — all of them known findings of
-  the real code) nothing can be proved; there the successor state is decided by evaluating `wfB`, which is what
-  the correspondence run compares with the real object.
+* `C10_step_preserves_WF_checked_partial`: outside the guards (knots of multiplicity ≥ order under raise_order,
+  general lower_order of rational objects, make_periodic of short directions — known findings of the real code;
+  periodic split with other knots within the tolerance of the split value) nothing is proved; there the successor
+  state is decided by evaluating `wfB`, which is what the correspondence run compares with the real object.
 -/
 
 open Splipy Splipy.History
@@ -290,21 +297,22 @@ theorem C10_insertion_matrix_convex (b : Basis K) (hv : b.Valid) (hper : b.perio
 
 /-- `insert_knot(knots, direction)`.
     `_partial`: the direction is NON-PERIODIC and the values lie in `[start, end)` (outside `[start, end]`
-    the call raises `ValueError`; at `end` of a clamped direction it raises `IndexError`).  Not proved:
-    periodic directions (C04 proves validity of the new knot vector only for `n ≥ p + k`; for smaller bases
-    the real code breaks the knot vector — known finding `periodic-small-basis-geometry`). -/
+    the call raises `ValueError`; at `end` of a clamped direction it raises `IndexError`).  Periodic
+    directions: `C10_step_preserves_WF_insert_knot_any_partial`. -/
 theorem C10_step_preserves_WF_insert_knot_partial {o : Obj K} (h : o.WellFormed) (tol : K) (knots : List K)
     (dir : ℕ) (hper : (o.basis dir).periodic = -1)
     (hxs : ∀ x ∈ knots, (o.basis dir).start ≤ x ∧ x < (o.basis dir).stop) {os : List (Obj K)}
     (hs : step tol o (.insertKnot knots dir) = .ok os) : ∀ o' ∈ os, o'.WellFormed :=
   wf_of_stepOut hs (fun _ h1 => of_nil (stepOut_insertKnot_wf h tol knots dir hper hxs h1))
 
-/-- `refine(*ns, direction=…)`.  `_partial`: every direction is non-periodic (the inserted values lie strictly
-    inside the knot spans for any tolerance `≥ 0`, this is proved). -/
-theorem C10_step_preserves_WF_refine_partial {o : Obj K} (h : o.WellFormed) (tol : K) (htol : 0 ≤ tol)
-    (ns : List ℕ) (direction : Option ℕ) (hper : ∀ d, d < o.bases.size → (o.basis d).periodic = -1)
+/-- **`refine(*ns, direction=…)` keeps every well-formed object well formed** — all directions, periodic ones of
+    any size included (the inserted values lie strictly inside the knot spans for any tolerance `≥ 0`; periodic
+    insertion needs no guard, `C10_periodic_insertion_matrix_positive`).  The only hypothesis is that the
+    tolerance is not negative (`state.knot_tolerance = 1e-10`). -/
+theorem C10_step_preserves_WF_refine {o : Obj K} (h : o.WellFormed) (tol : K) (htol : 0 ≤ tol)
+    (ns : List ℕ) (direction : Option ℕ)
     {os : List (Obj K)} (hs : step tol o (.refine ns direction) = .ok os) : ∀ o' ∈ os, o'.WellFormed :=
-  wf_of_stepOut hs (fun _ h1 => of_nil (stepOut_refine_wf h tol htol ns direction hper h1))
+  wf_of_stepOut hs (fun _ h1 => of_nil (stepOut_refine_wf_all h tol htol ns direction h1))
 
 /-- `split(knots, direction)`.  `_partial`: non-periodic direction, split values in `[start, end)`, and the end
     knot of the direction has multiplicity at most `p` (`hend`: the knot before the last `p` knots is smaller
@@ -364,82 +372,104 @@ theorem C10_step_preserves_WF_lower_order_partial {o : Obj K} (h : o.WellFormed)
     {os : List (Obj K)} (hs : step tol o (.lowerOrder lowers) = .ok os) : ∀ o' ∈ os, o'.WellFormed :=
   step_covered_wf h tol htol (.lowerOrder lowers) hg (fun _ ho => by cases ho) hs
 
-/-- `lower_periodic(periodic, direction)`.  `_partial`: either nothing changes (`periodic` is the current value),
-    or the direction is periodic with `n ≥ p + k` functions (the guard of periodic knot insertion, C04), the seam
-    has exactly its declared multiplicity (`start < knots[p]`) and `-1 ≤ periodic ≤ k`
-    (`C08_lower_periodic_partial` for the bases; here: array sizes and positive weights through every round —
-    periodic insertion matrices are row-stochastic, `C10_periodic_insertion_matrix_convex`). -/
-theorem C10_step_preserves_WF_lower_periodic_partial {o : Obj K} (h : o.WellFormed) (tol : K) (t : Int) (dir : ℕ)
-    (hcase : (o.basis dir).periodic = t ∨ ∃ k : ℕ, (o.basis dir).periodic = (k : Int) ∧ -1 ≤ t ∧ t ≤ k ∧
-      (o.basis dir).order + k ≤ (o.basis dir).numFunctions ∧
-      (o.basis dir).start < (o.basis dir).kn (o.basis dir).order)
+/-- **`lower_periodic(periodic, direction)`: every call that completes leaves a well-formed object** — no
+    hypothesis on the direction (any valid periodic basis, `n < p + k` included), on the seam multiplicity or on
+    the target (`t > periodic` and `t < -1` raise, `t = periodic` is the identity).  Bases: C08; here array sizes
+    and positive weights through every round (`C10_periodic_insertion_matrix_positive`). -/
+theorem C10_step_preserves_WF_lower_periodic {o : Obj K} (h : o.WellFormed) (tol : K) (t : Int) (dir : ℕ)
     {os : List (Obj K)} (hs : step tol o (.lowerPeriodic t dir) = .ok os) : ∀ o' ∈ os, o'.WellFormed :=
-  wf_of_stepOut hs (fun _ h1 => of_nil (stepOut_lowerPeriodic_wf_partial h tol t dir hcase h1))
+  wf_of_stepOut hs (fun _ h1 => of_nil (stepOut_lowerPeriodic_wf h tol t dir h1))
 
-/-- **The periodic insertion matrix is row-stochastic too** (guard `n ≥ p + k`, wrapped value not the domain
-    end), including the wrapping case `mu > n` where later writes of the code overwrite earlier ones. -/
+/-- **The insertion matrix of EVERY valid periodic basis, any real `x0`: `(n+1) × n`, entries `≥ 0`, every row
+    sums to at least 1** — no `n ≥ p + k` guard: wrapping writes (`mu > n`) and the covering construction of small
+    bases (the matrix is `n+1` rows of a product of row-stochastic matrices of the tiled basis times the tiling
+    matrix) included.  Hence positive weights stay positive (`C10.RowPositive.mulVec_pos`).  Row sums are not
+    always 1: `C10_periodic_insertion_row_sum_two`. -/
+theorem C10_periodic_insertion_matrix_positive (b : Basis K) (hv : b.Valid) (k : ℕ) (hk : b.periodic = (k : Int))
+    (x0 : K) {b' : Basis K} {C : Mat K} (h : b.insertKnot x0 = .ok (b', C)) :
+    C10.RowPositive (b.numFunctions + 1) b.numFunctions C :=
+  C10.insertKnot_rowPositive_periodic_all b hv k hk x0 h
+
+/-- **The periodic insertion matrix is row-stochastic** (every valid periodic basis, no `n ≥ p + k` guard) whenever
+    the wrapped value is not the end of the domain.  The hypothesis `hne` cannot be dropped
+    (`C10_periodic_insertion_row_sum_two`); without it `C10_periodic_insertion_matrix_positive` holds. -/
 theorem C10_periodic_insertion_matrix_convex (b : Basis K) (hv : b.Valid) (k : ℕ) (hk : b.periodic = (k : Int))
-    (hguard : b.order + k ≤ b.numFunctions) (x0 : K) (hne : C04.wrapVal b x0 ≠ b.stop) {b' : Basis K} {C : Mat K}
+    (x0 : K) (hne : C04.wrapVal b x0 ≠ b.stop) {b' : Basis K} {C : Mat K}
     (h : b.insertKnot x0 = .ok (b', C)) : C10.RowStochastic (b.numFunctions + 1) b.numFunctions C :=
-  C10.insertKnot_stochastic_periodic b hv k hk hguard x0 hne h
+  C10.insertKnot_stochastic_periodic_all_partial b hv k hk x0 hne h
 
-/-- `insert_knot(knots, direction)` on ANY direction.  `_partial`: `Obj.KnotsOK` — non-periodic direction with
-    values in `[start, end)`, or periodic direction with `n ≥ p + k` functions and values whose wrapped image is
-    not the domain end (below the guard the pinned code breaks the knot vector: known findings). -/
+/-- `insert_knot(knots, direction)` on ANY direction.  `_partial`: `Obj.OpenKnotsOK` — along a NON-periodic
+    direction the values lie in `[start, end)` (outside `[start, end]` the call raises `ValueError`, at `end` of a
+    clamped direction `IndexError`).  Nothing is asked along a periodic direction: any valid periodic basis
+    (`n < p + k` included), any real values. -/
 theorem C10_step_preserves_WF_insert_knot_any_partial {o : Obj K} (h : o.WellFormed) (tol : K) (knots : List K)
-    (dir : ℕ) (hok : Obj.KnotsOK (o.basis dir) knots) {os : List (Obj K)}
+    (dir : ℕ) (hok : Obj.OpenKnotsOK (o.basis dir) knots) {os : List (Obj K)}
     (hs : step tol o (.insertKnot knots dir) = .ok os) : ∀ o' ∈ os, o'.WellFormed :=
-  wf_of_stepOut hs (fun _ h1 => of_nil (stepOut_insertKnot_any_wf_partial h tol knots dir hok h1))
+  wf_of_stepOut hs (fun _ h1 => of_nil (stepOut_insertKnot_all_wf_partial h tol knots dir hok h1))
 
-/-- `refine(*ns, direction=…)` on objects with periodic directions.  `_partial`: every direction is non-periodic
-    or periodic with `n ≥ p + k` (`Obj.DirOK`). -/
-theorem C10_step_preserves_WF_refine_any_partial {o : Obj K} (h : o.WellFormed) (tol : K) (htol : 0 ≤ tol)
-    (ns : List ℕ) (direction : Option ℕ) (hdirs : ∀ d, d < o.bases.size → Obj.DirOK (o.basis d))
-    {os : List (Obj K)} (hs : step tol o (.refine ns direction) = .ok os) : ∀ o' ∈ os, o'.WellFormed :=
-  wf_of_stepOut hs (fun _ h1 => of_nil (stepOut_refine_any_wf_partial h tol htol ns direction hdirs h1))
+/-- `insert_knot(knots, direction)` along a PERIODIC direction: no condition at all. -/
+theorem C10_step_preserves_WF_insert_knot_periodic {o : Obj K} (h : o.WellFormed) (tol : K) (knots : List K)
+    (dir : ℕ) (k : ℕ) (hk : (o.basis dir).periodic = (k : Int)) {os : List (Obj K)}
+    (hs : step tol o (.insertKnot knots dir) = .ok os) : ∀ o' ∈ os, o'.WellFormed :=
+  C10_step_preserves_WF_insert_knot_any_partial h tol knots dir
+    (fun hper => by rw [hk] at hper; omega) hs
 
-/-- `split(knots, direction)` on ANY direction.  `_partial`: `SplitOK` — the non-periodic hypotheses of
-    `C10_step_preserves_WF_split_partial`, or a periodic direction with `n ≥ p + k`, first value in `[start, end)`,
-    later values in `[x0, x0 + T)` and `≠ end`, `start < x0` when there are later values, and (`hMult`) after the
-    insertion loop the first value has multiplicity ≥ p at `bisect_left` — which is PROVED for a single split
-    value under the exact-tolerance hypotheses of `C07_split_periodic_partial`
-    (`C10_step_preserves_WF_split_periodic_partial`). -/
+/-- `split(knots, direction)` on ANY direction.  `_partial`: `SplitOKAll` — the non-periodic hypotheses of
+    `C10_step_preserves_WF_split_partial`, or ANY periodic direction (no `n ≥ p + k` guard) with first value in
+    `[start, end)`, later values in `[x0, x0 + T)`, `start < x0` when there are later values, and (`hMult`) after
+    the insertion loop the first value has multiplicity ≥ p at `bisect_left` — which is PROVED under the
+    exact-tolerance hypotheses of `C07_split_periodic_partial` (`SplitOKAll.of_exact`, `SplitOKAll.of_exact_cons`;
+    `C10_step_preserves_WF_split_periodic_partial`, `…_split_periodic_many_partial`). -/
 theorem C10_step_preserves_WF_split_any_partial {o : Obj K} (h : o.WellFormed) (tol : K) (knots : List K) (dir : ℕ)
-    (hok : SplitOK o tol knots dir) {os : List (Obj K)} (hs : step tol o (.split knots dir) = .ok os) :
+    (hok : SplitOKAll o tol knots dir) {os : List (Obj K)} (hs : step tol o (.split knots dir) = .ok os) :
     ∀ o' ∈ os, o'.WellFormed :=
-  wf_of_stepOut hs (fun _ h1 => stepOut_split_any_wf_partial h tol knots dir hok h1)
+  wf_of_stepOut hs (fun _ h1 => stepOut_split_all_wf_partial h tol knots dir hok h1)
 
-/-- `split(x0, direction)` of a PERIODIC direction (the opened object).  `_partial`: guard `n ≥ p + k`,
-    `x0 ∈ [start, end)`, and no knot other than copies of `x0` within the tolerance of `x0` (`hexR`, `hexL`:
-    the tolerance comparison of `continuity` is exact) — the hypotheses of `C07_split_periodic_partial`. -/
+/-- `split(x0, direction)` of a PERIODIC direction (the opened object) — every valid periodic direction, no
+    `n ≥ p + k` guard.  `_partial`: `x0 ∈ [start, end)`, and no knot other than copies of `x0` within the tolerance
+    of `x0` (`hexR`, `hexL`: the tolerance comparison of `continuity` is exact) — the hypotheses of
+    `C07_split_periodic_partial`. -/
 theorem C10_step_preserves_WF_split_periodic_partial {o : Obj K} (h : o.WellFormed) (tol : K) (htol : 0 < tol)
     (x0 : K) (dir : ℕ) (k : ℕ) (hk : (o.basis dir).periodic = (k : Int))
-    (hguard : (o.basis dir).order + k ≤ (o.basis dir).numFunctions)
     (hx : (o.basis dir).start ≤ x0 ∧ x0 < (o.basis dir).stop)
     (hexR : ∀ i, i < (o.basis dir).knots.size → (o.basis dir).kn i ≤ x0 ∨ x0 + tol ≤ (o.basis dir).kn i)
     (hexL : ∀ i, i < (o.basis dir).knots.size → (o.basis dir).kn i < x0 - tol ∨ x0 ≤ (o.basis dir).kn i)
     {os : List (Obj K)} (hs : step tol o (.split [x0] dir) = .ok os) : ∀ o' ∈ os, o'.WellFormed :=
   wf_of_stepOut hs (fun _ h1 =>
-    stepOut_split_periodic_single_wf_partial h tol htol x0 dir k hk hguard hx hexR hexL h1)
+    stepOut_split_periodic_single_wf_all_partial h tol htol x0 dir k hk hx hexR hexL h1)
+
+/-- `split([x0, y1, …], direction)` of a PERIODIC direction (the pieces) — every valid periodic direction, no
+    guard.  `_partial`: as above for `x0`, the later values lie in `[x0, x0 + T)`, and `x0` is not the start of
+    the domain when there are later values. -/
+theorem C10_step_preserves_WF_split_periodic_many_partial {o : Obj K} (h : o.WellFormed) (tol : K)
+    (htol : 0 < tol) (x0 : K) (rest : List K) (dir : ℕ) (k : ℕ) (hk : (o.basis dir).periodic = (k : Int))
+    (hx : (o.basis dir).start ≤ x0 ∧ x0 < (o.basis dir).stop)
+    (hexR : ∀ i, i < (o.basis dir).knots.size → (o.basis dir).kn i ≤ x0 ∨ x0 + tol ≤ (o.basis dir).kn i)
+    (hexL : ∀ i, i < (o.basis dir).knots.size → (o.basis dir).kn i < x0 - tol ∨ x0 ≤ (o.basis dir).kn i)
+    (hrest : ∀ y ∈ rest, x0 ≤ y ∧ y < x0 + ((o.basis dir).stop - (o.basis dir).start))
+    (hpos : rest ≠ [] → (o.basis dir).start < x0)
+    {os : List (Obj K)} (hs : step tol o (.split (x0 :: rest) dir) = .ok os) : ∀ o' ∈ os, o'.WellFormed :=
+  wf_of_stepOut hs (fun _ h1 =>
+    stepOut_split_periodic_wf_all_partial h tol htol x0 rest dir k hk hx hexR hexL hrest hpos h1)
 
 /-- `SplineObject.make_splines_identical(a, b, direction)` — both objects stay well formed.  `_partial`:
-    `Obj.IdenticalGuard`, the stage-wise guard over the intermediate states of C12's model: after
-    `make_splines_compatible` (no guard) and `reparam` (no guard), the object whose periodicity is lowered satisfies
-    the `lower_periodic` guard (`n ≥ p + k`, seam multiplicity), both objects satisfy `RaiseGuard` for the raise to
-    the common order, and the two lists of inserted knots are `KnotsOK` for the basis that receives them. -/
+    `Obj.IdenticalGuardAll`, the stage-wise guard over the intermediate states of C12's model: after
+    `make_splines_compatible` (no guard), `reparam` (no guard) and the lowering of the periodicity (no guard: any
+    periodic direction), both objects satisfy `RaiseGuard` for the raise to the common order, and — only along a
+    NON-periodic direction — the two lists of merged knots lie in `[start, end)` of the basis that receives them
+    (`Obj.OpenKnotsOK`). -/
 theorem C10_step_preserves_WF_make_splines_identical_partial {s1 s2 r1 r2 : Obj K} (h1 : s1.WellFormed)
     (h2 : s2.WellFormed) (tol : K) (htol : 0 < tol) (direction : Option DirTok)
-    (hg : Obj.IdenticalGuard tol s1 s2 direction)
+    (hg : Obj.IdenticalGuardAll tol s1 s2 direction)
     (hs : Obj.makeIdentical tol (s1.bases.size == 1) (s2.bases.size == 1) s1 s2 direction = .ok (r1, r2)) :
     r1.WellFormed ∧ r2.WellFormed ∧ r1.bases.size = s1.bases.size ∧ r2.bases.size = s2.bases.size :=
-  Obj.makeIdentical_wf_partial h1 h2 tol htol direction hg hs
+  Obj.makeIdentical_wf_all_partial h1 h2 tol htol direction hg hs
 
-/-- **Any operation, checked**: for the families without a preservation proof (`raise_order`, `lower_order`,
-    `lower_periodic`, periodic `insert_knot` / `split`, `append` of unequal orders) the successor state is
-    decided by evaluating the executable check; by `C10_wfB_iff` its verdict is `WellFormed`.
-    `_partial`: the verdict `wfB = true` is a hypothesis, nothing about the operation itself is proved
-    (raise_order: positivity of the weights needs the degree-elevation coefficients, cf.
-    `C05_geometry_partial`; periodic insertion into small bases is a known defect). -/
+/-- **Any operation, checked**: where no preservation proof applies (`raise_order` with knots of multiplicity
+    ≥ order, general `lower_order`, `make_periodic` of short directions, periodic `split` outside the
+    exact-tolerance hypotheses) the successor state is decided by evaluating the executable check; by
+    `C10_wfB_iff` its verdict is `WellFormed`.
+    `_partial`: the verdict `wfB = true` is a hypothesis, nothing about the operation itself is proved. -/
 theorem C10_step_preserves_WF_checked_partial {o : Obj K} (tol : K) (op : Op K) {os : List (Obj K)}
     (_hs : step tol o op = .ok os) (hchk : os.all (fun o' => o'.wfB) = true) : ∀ o' ∈ os, o'.WellFormed := by
   intro o' ho'
@@ -452,11 +482,12 @@ theorem C10_step_preserves_WF_checked_partial {o : Obj K} (tol : K) (op : Op K) 
     (both forms), split, append, make_periodic, lower_periodic, the affine family with its operator forms, section,
     extrude, clone and the two-object instruction make_splines_identical.
     `_partial`: every instruction must satisfy its guard at the moment it is executed (`History.CoveredRun`;
-    `History.Covered tol o op` is, per family, exactly the hypothesis of the lemma above: nothing for clone /
-    reverse / swap / reparam / section / extrude, `Admissible` for the affine family, `KnotsOK` / `DirOK` for
-    insert_knot / refine, `RaiseGuard` / `LowerGuard` for raise_order / lower_order, `SplitOK` for split,
-    `AppendGuard` for append, `order + continuity ≤ n` for make_periodic, the C08 guard for lower_periodic,
-    `Obj.IdenticalGuard` for make_splines_identical), and a literal `append` argument must be well formed
+    `History.Covered tol o op` is, per family, exactly the hypothesis of the lemma above: NOTHING for clone /
+    reverse / swap / reparam / section / extrude / refine / lower_periodic, `Admissible` for the affine family,
+    `OpenKnotsOK` for insert_knot (values in `[start, end)` along a non-periodic direction, nothing along a
+    periodic one), `RaiseGuard` / `LowerGuard` for raise_order / lower_order, `SplitOKAll` for split,
+    `AppendGuard` for append, `order + continuity ≤ n` for make_periodic, `Obj.IdenticalGuardAll` for
+    make_splines_identical — no guard mentions `n ≥ p + k`), and a literal `append` argument must be well formed
     (`Instr.ArgsWF`; arguments taken from the pool are well formed anyway). -/
 theorem C10_reachable_partial (tol : K) (htol : 0 < tol) (ops : List (Instr K)) (pool pool' : List (Obj K))
     (hpool : ∀ o ∈ pool, o.WellFormed) (hcov : CoveredRun tol pool ops)
@@ -577,17 +608,8 @@ example := @History.exCurve_runs
 example := @History.exSurf_runs
 example : RaiseGuard (1/100 : ℚ) History.exCurve [1] none := History.exCurve_raiseGuard
 
-/-- `C10_step_preserves_WF_lower_periodic_partial`, `_insert_knot_any_partial`, `_make_periodic_partial`: guards on
-    the concrete objects (periodic direction of `C10_exSurf`: order 3, `k = 0`, 4 functions; the open quadratic
+/-- `C10_step_preserves_WF_make_periodic_partial`: the guard on the concrete object (the open quadratic
     `C10_exCurve` has 6 ≥ 3 + 1 functions). -/
-example : (C10_exSurf.basis 0).periodic = ((0 : ℕ) : Int) ∧ -1 ≤ (-1 : Int) ∧ (-1 : Int) ≤ (0 : ℕ) ∧
-    (C10_exSurf.basis 0).order + 0 ≤ (C10_exSurf.basis 0).numFunctions ∧
-    (C10_exSurf.basis 0).start < (C10_exSurf.basis 0).kn (C10_exSurf.basis 0).order := by
-  have hb : C10_exSurf.basis 0 = ⟨3, #[-1, 0, 0, 1, 2, 3, 3, 4], 0⟩ := rfl
-  rw [hb]
-  refine ⟨rfl, by decide, by decide, by decide, ?_⟩
-  norm_num [Basis.start, Basis.kn]
-
 example : ((C10_exCurve.basis 0).order : Int) + (some (1 : Int)).getD (((C10_exCurve.basis 0).order : Int) - 2)
     ≤ (C10_exCurve.basis 0).numFunctions := by decide
 
@@ -601,6 +623,42 @@ def C10_exCheck2 : Bool :=
   | .error _ => false
 
 theorem C10_exCheck2_true : C10_exCheck2 = true := by decide +kernel
+
+/-- A SMALL periodic curve: order 3, `C^1`-periodic, 3 functions (`n = 3 < p + k = 4`), rational. -/
+def C10_exSmall : Obj ℚ :=
+  { bases := #[⟨3, #[-2, -1, 0, 1, 2, 3, 4, 5], 1⟩],
+    cps := ⟨[3, 3], #[0, 0, 1, 2, 0, 2, 1, 3, 1]⟩, rational := true }
+
+theorem C10_exSmall_wf : C10_exSmall.WellFormed := (C10_wfB_iff _).1 (by decide +kernel)
+
+example : (C10_exSmall.basis 0).numFunctions < (C10_exSmall.basis 0).order + 1 := by decide +kernel
+
+/-- Below the former guard the guard-free theorems apply and their conclusions are reached: insertion (also of a
+    value outside the base period and of the domain end), refine, lower_periodic and split of the small periodic
+    curve run and give well-formed objects. -/
+def C10_exCheck3 : Bool :=
+  match run C10_tol [C10_exSmall, C10_exSmall, C10_exSmall, C10_exSmall]
+      [.on 0 (.insertKnot [1/2, 7/2, 3] 0), .on 1 (.refine [1] none), .on 2 (.lowerPeriodic (-1) 0),
+       .on 3 (.split [1] 0), .on 0 (.lowerPeriodic 0 0), .on 1 (.split [1/2, 2] 0)] with
+  | .ok pool => pool.length == 7 && pool.all (fun o => o.wfB)
+  | .error _ => false
+
+theorem C10_exCheck3_true : C10_exCheck3 = true := by decide +kernel
+
+example : ∀ os, step C10_tol C10_exSmall (.insertKnot [1/2, 7/2, 3] 0) = .ok os → ∀ o' ∈ os, o'.WellFormed :=
+  fun _ hs => C10_step_preserves_WF_insert_knot_periodic C10_exSmall_wf C10_tol _ 0 1 rfl hs
+
+example : ∀ os, step C10_tol C10_exSmall (.lowerPeriodic (-1) 0) = .ok os → ∀ o' ∈ os, o'.WellFormed :=
+  fun _ hs => C10_step_preserves_WF_lower_periodic C10_exSmall_wf C10_tol (-1) 0 hs
+
+/-- **Row sums of a periodic insertion matrix can exceed 1**: order 2, knots `[0,0,1,1,2]`, `C^0`-periodic
+    (2 functions), `insert_knot(1)` — the value is the end of the domain; the third row of the matrix is `[1, 1]`.
+    (So `hne` of `C10_periodic_insertion_matrix_convex` is needed; positivity of weights is not affected.) -/
+theorem C10_periodic_insertion_row_sum_two :
+    (⟨2, #[0, 0, 1, 1, 2], 0⟩ : Basis ℚ).Valid ∧
+    ((⟨2, #[0, 0, 1, 1, 2], 0⟩ : Basis ℚ).insertKnot 1).map (fun r => r.2) =
+      .ok #[#[1, 0], #[0, 1], #[1, 1]] :=
+  ⟨(C10_validB_iff _).1 (by decide +kernel), by decide +kernel⟩
 
 /-- `C10_valid_accepted` / `C10_constructor_rejects` on concrete vectors. -/
 example : Basis.mk? 3 #[0, 0, 0, 1, 2, 2, 3, 3, 3] (-1) C10_tol = .ok ⟨3, #[0, 0, 0, 1, 2, 2, 3, 3, 3], -1⟩ :=
